@@ -62,9 +62,95 @@ class Ctx:
         return o
 
     def bad(self, rule, key, text, site='', detail='', **kw):
+        dr = self.drift_of(site)
+        if dr is not None and os.environ.get('CFR_DRIFT_LOG'):
+            pid_file = os.path.join(self.repo, '.patch_id')
+            tag = open(pid_file).read().strip() if os.path.exists(pid_file) else self.repo
+            with open(os.environ['CFR_DRIFT_LOG'], 'a') as fh:
+                fh.write('%s\t%s\t%s\t%.3f\t%s\n' % (tag, key, getattr(site, 'fn', ''), dr, getattr(self, '_drift_abs', {}).get(getattr(site, 'fn', '').split('::{closure')[0], '?')))
+        gone = self.collaborators_gone(site)
+        if gone:
+            # the function this verdict sits in used to work with crate-local functions that no longer exist (not
+            # renamed, not moved: gone — e.g. turned into methods of a new context type): the code around the rule's
+            # anchor has been redesigned and what the rule expects to see there is not evidence either way
+            o = Ob(rule, self._uniq('restructured:%s' % key), 'not-proved', text, site,
+                   'NOT DECIDED: %s worked with %s in the reference tree / works through it now: redesigned around the rule\'s anchor; the finding there (%s) is not taken as a violation' % (
+                       getattr(site, 'fn', '?').split('::{closure')[0], ', '.join(sorted(gone)), str(detail)[:120]), kind='S')
+            self.obs.append(o)
+            self.undecided.append(o)
+            return o
         o = Ob(rule, self._uniq(key), 'violated', text, site, detail, **kw)
         self.obs.append(o)
         return o
+
+    def collaborators_gone(self, site):
+        fn = getattr(site, 'fn', None)
+        if not fn:
+            return set()
+        top = fn.split('::{closure')[0]
+        if not hasattr(self, '_gone'):
+            import inline
+            kn = inline.known()
+            self._gone = {}
+            self._ref_calls = {}
+            for kind, c in self.crates.items():
+                if c is None or kind not in ('lib', 'bin'):
+                    continue
+                cur_short = {n.split('::')[-1] for n, f in c.fns.items() if not f.is_closure}
+                # only functions of some size count: a one-line accessor deleted together with its only use is an edit,
+                # a traversal / driver that disappears is a redesign
+                shapes = kn.get(kind + '_shape') or {}
+                ref_short = {n.split('::')[-1] for n in (kn.get(kind) or []) if sum((shapes.get(n) or {}).values()) >= 8}
+                self._gone[kind] = ref_short - cur_short
+                for n, calls in (kn.get(kind + '_calls') or {}).items():
+                    self._ref_calls[n] = set(calls)
+        out = set()
+        import inline
+        for kind, g in self._gone.items():
+            c = self.crates.get(kind)
+            if c is not None and (top in c.fns or any(n.startswith(top + '::{closure') for n in c.fns)):
+                out |= (self._ref_calls.get(top, set()) & g)
+                if top not in (inline.known().get(kind) or []) and g:
+                    # a function the reference tree does not have, in a module from which reference functions of some
+                    # size have disappeared: it is (part of) what replaced them — there is no reference shape to hold it to
+                    segs = top.lstrip('<').split('::')
+                    mod = '::'.join(segs[:2]) if segs[0] == 'solve' and len(segs) > 2 else segs[0]
+                    gone_here = {n.split('::')[-1] for n in (inline.known().get(kind) or []) if n.startswith(mod + '::') and n.split('::')[-1] in g}
+                    out |= gone_here
+        return out
+
+    def drift_of(self, site):
+        """how far the function a verdict sits in has moved from its reference shape: 0 = same multiset of calls /
+        operators / constructions, 1 = nothing in common (or a function the reference tree does not have)"""
+        fn = getattr(site, 'fn', None)
+        if not fn:
+            return None
+        top = fn.split('::{closure')[0]
+        if not hasattr(self, '_drift'):
+            self._drift = {}
+        if top in self._drift:
+            return self._drift[top]
+        import inline
+        kn = inline.known()
+        val = None
+        for kind, c in self.crates.items():
+            f = c.fns.get(top) if c is not None else None
+            if f is None:
+                continue
+            ref = (kn.get(kind + '_shape') or {}).get(top)
+            if ref is None:
+                val = 1.0
+            else:
+                cur = f.shape()
+                keys = set(cur) | set(ref)
+                inter = sum(min(cur.get(k, 0), ref.get(k, 0)) for k in keys)
+                tot = max(sum(cur.values()), sum(ref.values()))
+                val = (1.0 - inter / tot) if tot else 0.0
+                self._drift_abs = getattr(self, '_drift_abs', {})
+                self._drift_abs[top] = tot - inter
+            break
+        self._drift[top] = val
+        return val
 
     def verdict(self, cond, rule, key, text, site='', detail='', **kw):
         return (self.ok if cond else self.bad)(rule, key, text, site, detail, **kw)
